@@ -50,7 +50,7 @@ def main(argv=None) -> int:
             # the abstract interpreter gave up on a construct it does not follow: nothing further is decided, and that is what is
             # reported (a vanished anchor or a crash of the checker itself is an AnalysisError / traceback -> exit 2)
             from sa.absint import Budget as _Budget, _Unmodelled as _Unm
-            if not isinstance(e_, (_Budget, _Unm)):
+            if not isinstance(e_, (_Budget, _Unm, RecursionError)):
                 raise
             ctx.unk(f"{prop}.0", f"analysis stopped: {type(e_).__name__}", "", f"{e_}: the obligations not listed above are not decided")
         if args.tier == "thorough" and not args.no_selftest and not os.environ.get("A5_NO_SELFTEST") and not args.replay:
